@@ -28,4 +28,40 @@ mod kani_verif {
         let back: f64 = a.deserialize_into().unwrap();
         assert!(back.to_bits() == v.to_bits());
     }
+
+    #[kani::proof]
+    #[kani::unwind(5)]
+    fn string_roundtrip_len2() {
+        let bytes: [u8; 2] = kani::any();
+        let len: usize = kani::any();
+        kani::assume(len <= 2);
+        if let Ok(st) = std::str::from_utf8(&bytes[..len]) {
+            let a = Any::new(st).unwrap();
+            let back: String = a.deserialize_into().unwrap();
+            assert!(back.as_bytes() == st.as_bytes());
+        }
+    }
+
+    #[kani::proof]
+    #[kani::unwind(5)]
+    fn vec_u8_roundtrip_len2() {
+        let a0: u8 = kani::any();
+        let a1: u8 = kani::any();
+        let v = vec![a0, a1];
+        let a = Any::new(&v).unwrap();
+        let back: Vec<u8> = a.deserialize_into().unwrap();
+        assert!(back == v);
+    }
+
+    #[kani::proof]
+    #[kani::unwind(5)]
+    fn map_one_entry_i32_key() {
+        let k: i32 = kani::any();
+        let val: bool = kani::any();
+        let mut m = std::collections::BTreeMap::new();
+        m.insert(k, val);
+        let a = Any::new(&m).unwrap();
+        let back: std::collections::BTreeMap<i32, bool> = a.deserialize_into().unwrap();
+        assert!(back == m);
+    }
 }
